@@ -532,7 +532,7 @@ impl Compress {
         compressed: &mut Vec<u8>,
         packet: &[u8],
         mut offset: usize,
-        base_offset: usize,
+        _base_offset: usize,
     ) -> CompressedNameResult {
         let uncompressed_name_len = Compress::raw_name_len_after_decompression(packet, offset);
         let initial_compressed_len = compressed.len();
@@ -543,9 +543,8 @@ impl Compress {
                 panic!("copy_compressed_name() called on an already compressed name");
             }
             if let Some(ref_offset) =
-                dict.insert(&packet[offset..final_offset], base_offset + offset)
+                dict.insert(&packet[offset..final_offset], compressed.len())
             {
-                assert!(offset < 65536 >> 2); // Checked in dict.insert()
                 compressed.push((ref_offset >> 8) as u8 | 0xc0);
                 compressed.push((ref_offset & 0xff) as u8);
                 break;
